@@ -345,8 +345,18 @@ def rule_maybe_done(ctx, M):
         ctx.check(ok, "C03.GUARD", b.def_, "MaybeDone polls its future only in the Future state", site=c.where)
         # on Ready: Pin::set(self, Done(res)) before return
         edges = bi.outcome_edges(c, "Ready")
-        sets = [s.block for s in bi.sites if s.callee.key == ("Pin", "set") and s.arg(1) is not None and s.arg(1)[0] == "agg"
-                and s.arg(1)[1] == ("MaybeDone", "Done")]
+        def is_done_of_output(v):
+            from . import flow as _flow
+            return v is not None and v[0] == "agg" and v[1] == ("MaybeDone", "Done") and v[2] and _flow.is_payload(v[2][0], c.block, "Ready")
+        sets = [s.block for s in bi.sites if s.callee.key == ("Pin", "set") and is_done_of_output(s.arg(1))]
+        # `*this = MaybeDone::Done(res)` through the (unpinned) self reference
+        body_ = bi.body
+        for blk_ in sorted(body_.reachable):
+            if body_.is_cleanup(blk_):
+                continue
+            for st_ in body_.stmts(blk_):
+                if st_["k"] == "assign" and st_["lhs"]["p"] and bi.T.of_place(st_["lhs"]) == ("param", 1) and is_done_of_output(bi.T.of_rvalue(st_["rv"], 0)):
+                    sets.append(blk_)
         good, bad = bi.must_reach([t for _, t in edges], sets, bi.return_blocks)
         ctx.check(bool(edges) and bool(sets) and good, "C03.MARK", b.def_, "MaybeDone becomes Done(output) when its future resolves",
                   site=c.where, path=common.fmt_blocks(bi, bad))
